@@ -164,6 +164,9 @@ fn fault_check(steps: &[Step], with_get: bool) -> Option<String> {
         let start = d0.0.lock().unwrap().op_count;
         if with_get { let _ = block_on(c0.get(0)); } else if let Step::Reopen = last { drop(c0); let _ = open_core(&d0); } else { let _ = run_step(&mut c0, &m0, last); }
         let total = d0.0.lock().unwrap().op_count - start;
+        // a reopen is tried both ways: open(true) and the key-pair builder on existing storage (which must not start afresh
+        // because a read or length query failed)
+        for mode in 0..(if matches!(last, Step::Reopen) && !with_get { 2 } else { 1 }) {
         for k in 0..total {
             let disk = SharedDisk::new();
             let (mut core, model) = match run_prefix(&disk) { Ok(x) => x, Err(e) => return Some(format!("setup: {e}")) };
@@ -172,7 +175,7 @@ fn fault_check(steps: &[Step], with_get: bool) -> Option<String> {
             disk.0.lock().unwrap().fail_at = Some(base + k);
             let mut after = model.clone();
             let res: Result<(), String> = if with_get { block_on(core.get(0)).map(|_| ()).map_err(|e| e.to_string()) }
-                else if let Step::Reopen = last { drop(core); match open_core(&disk) { Ok(c) => { core = c; Ok(()) }, Err(e) => { core = match { disk.0.lock().unwrap().fail_at = None; open_core(&disk) } { Ok(c) => c, Err(e2) => return Some(format!("fault at call {k} of reopen, then fault-free reopen failed: {e2}")) }; Err(e.to_string()) } } }
+                else if let Step::Reopen = last { drop(core); match (if mode == 0 { open_core(&disk) } else { create_core(&disk) }) { Ok(c) => { core = c; Ok(()) }, Err(e) => { core = match { disk.0.lock().unwrap().fail_at = None; open_core(&disk) } { Ok(c) => c, Err(e2) => return Some(format!("fault at call {k} of reopen, then fault-free reopen failed: {e2}")) }; Err(e.to_string()) } } }
                 else { apply_model(&mut after, last); run_step(&mut core, &model, last) };
             let failed = disk.0.lock().unwrap().failed;
             if !failed { continue; }   // the call did not reach operation k
@@ -185,6 +188,7 @@ fn fault_check(steps: &[Step], with_get: bool) -> Option<String> {
             let mut rc = match open_core(&disk) { Ok(c) => c, Err(e) => return Some(format!("fault at call {k}: reopen failed: {e}")) };
             let a = same(&mut rc, &model); let b = if a.is_some() { same(&mut rc, &after) } else { None };
             if let (Some(ma), Some(mb)) = (&a, &b) { return Some(format!("fault at call {k} ({} ops journalled before): recovered state is neither before ({ma}) nor after ({mb})", jlen)); }
+        }
         }
         None
     });
